@@ -181,6 +181,54 @@ def run(ctx):
             p, r = np.where(p != 0, 1 + (p % k), 0).astype(rng.choice(["uint8", "int16", "int64"])), np.where(r != 0, 1 + (r % k), 0)
             r = r.astype(p.dtype)
         one_case(ctx, gen_cfg(rng, it), p, r, "random")
+    # matching thresholds a hair on the failing side of an achieved candidate score (next float, 2e-6 relative, 5e-9 absolute)
+    # and exactly at it; thresholds outside [0, 1] (distances are not bounded by 1; an overlap threshold above 1 matches nothing)
+    for _ in range(ctx.scale(60, 600)):
+        p, r = impl.rand_pair(rng, max_side=7, max_inst=3)
+        if not p.any() or not r.any():
+            continue
+        cfg = gen_cfg(rng, "unmatched")
+        cfg["matcher"] = "naive"
+        mm = cfg["mmetric"]
+        try:
+            cands = impl_candidates(p, r, mm)
+        except Exception:  # noqa
+            continue
+        if not cands:
+            continue
+        v = rng.choice(cands)[0]
+        sign = -1.0 if mm == "ASSD" else 1.0
+        cfg["mthr"] = rng.choice([float(np.nextafter(v, v + sign)), v * (1 + sign * 2e-6), v + sign * 5e-9, v, float(np.nextafter(v, v - sign))])
+        if cfg["mthr"] < 0:
+            continue
+        one_case(ctx, cfg, p, r, "near-threshold")
+    for _ in range(ctx.scale(30, 300)):
+        h, w = rng.randint(5, 8), rng.randint(14, 22)
+        r = np.zeros((h, w), np.uint8); p = np.zeros((h, w), np.uint8)
+        r[1:4, 1:6] = 1; p[1:4, 1 + rng.randint(1, 4):6 + rng.randint(1, 5)] = 1        # shifted: ASSD between ~0.5 and ~4
+        r[1:h - 1, 10:13] = 2; p[2:h - 1, 10 + rng.randint(0, 2):13 + rng.randint(0, 3)] = 2
+        cfg = gen_cfg(rng, "unmatched")
+        cfg["matcher"], cfg["m2o"] = "naive", False
+        if rng.random() < 0.7:
+            cfg["mmetric"], cfg["mthr"] = "ASSD", rng.choice([1.5, 2.0, 3.0, 5.0, 50.0])
+        else:
+            cfg["mmetric"], cfg["mthr"] = rng.choice(["IOU", "DSC"]), rng.choice([1.25, 1.0000001, 2.0])
+            if rng.random() < 0.5:
+                p = r.copy()                                                                # perfect overlap still does not reach a threshold above 1
+        one_case(ctx, cfg, p, r, "threshold-range")
+    # two predictions competing for one reference with Farey-neighbour IoUs (distinct, equal to nine decimals), ~5*10^4 voxels
+    import random as _random
+    for k in range(1 if ctx.tier != "thorough" else 4):
+        p, r, _ = impl.farey_pair(_random.Random(rng.randrange(10 ** 6)))
+        one_case(ctx, {"input": "unmatched", "matcher": "naive", "m2o": False, "mmetric": "IOU", "mthr": 0.25, "imetrics": ["IOU", "DSC"], "gmetrics": []},
+                 p, r, "near-equal")
+    # chains of candidates at low thresholds: a prediction whose best reference is taken by a better pair falls back to its second one
+    for _ in range(ctx.scale(25, 250)):
+        p, r = impl.chain_pair(rng)
+        cfg = gen_cfg(rng, "unmatched")
+        cfg["matcher"], cfg["m2o"] = "naive", rng.random() < 0.3
+        cfg["mmetric"], cfg["mthr"] = rng.choice(["IOU", "DSC", "IOU"]), rng.choice([0.05, 0.1, 0.2, 0.25])
+        one_case(ctx, cfg, p, r, "chain")
     # the same evaluator object used for several inputs of different dimensionality / dtype / emptiness
     for ch in range(ctx.scale(40, 400)):
         it = rng.choice(["matched", "unmatched", "semantic", "semantic"])
